@@ -641,6 +641,19 @@ for _p in ("C04", "C05", "C06", "C07", "C08"):
                             "write_two_calls_generic (lean/SfProps/C04HandleG.lean).")
 
 
+CLAIMED["C14"]["text"] += (" Round 9 (gapj): a deterministic slice of SKIPS THAT DO NOT FIT THE HEADER CACHE (vlib/bigskip.py: JUNK chunk / ANNO chunk / SSND offset / AU annotation whose end lies at 100 KiB -1 / 0 / +1 / +2, "
+                            "uncached gaps of 7 and 8 x 16 KiB -1 / 0 / +1, 200 001 bytes; pipe against sequential virtual I/O, path / fd / embedded for three sizes; Sf.RoutesBigSkip, junk_loop_lands / big_skip_branches_agree / pipe_big_skip_first_audio "
+                            "in lean/SfProps/C14BigSkip.lean); DESCRIPTOR NUMBERS 0 / 1 (harness op `lowfd`, vlib/lowfd.py: standard streams closed, every route x writer / reader x plain / SD2 / ALAC handle; P-close, P-others, P-number and the table against "
+                            "Sf.FdWorld; Sf.FdWorldLow, release_closes_owned / release_keeps_lent / open_close_restores in lean/SfProps/C14LowFd.lean); ID3v2-PREFIXED files of every container through every route (reference = whichever route reads the base "
+                            "file out of it). Found and repaired: KF-C14-ID3-VIO-PIPE (psf_fseek / psf_ftell ignored psf->fileoffset on the callbacks and on pipes), KF-C14-ID3-EMBEDDED (id3_skip compared an absolute position with a relative length); Sf.RoutesId3, lean/SfProps/C14Id3.lean.")
+CLAIMED["C09"]["text"] += (" Round 9 (gapj): every chmap history with a refused SFC_SET_CHANNEL_MAP_INFO is re-run without the refused calls and judged by Sf.AbsTwin (closed file, re-open, GET on the re-opened file; vlib/chmapfix.py `twin_pass`); every c09twin history of a "
+                            "container with a command handler sets an ACCEPTED map and then one the container cannot express. Sf.ChmapPriv (the handler-private mask / tag next to psf->channel_map; refused_leaves_priv, overwrite_without_rederive_zeroes_mask in lean/SfProps/C09ChmapPriv.lean).")
+CLAIMED["C19"]["text"] += (" Round 9 (gapj): vlib/cmdreach.py -- EVERY SFC_* enumerator of include/sndfile.h (three argument shapes) on a handle A of four codec families, THEN seven workloads are opened (FLOAT / DOUBLE in both byte orders with +-Inf, NaN, -0.0, subnormals; "
+                            "PCM through float; u-law; IMA), A open or closed: every line equals the run without A (Sf.CapsWorld, open_after_any_history / cache_rule_leaks_across_handles in lean/SfProps/C19Caps.lean). vlib/heapcodec.py -- heap history for EVERY codec's private "
+                            "state, deterministic: 3-frame file, partial last block, reader with seeks, under three allocator fills (Sf.HeapInit, lean/SfProps/C19HeapInit.lean).")
+CLAIMED["C07"]["text"] += " Round 9 (gapj): vlib/heapcodec.py for C07 -- the bytes of a 3-frame file and of a file with a partial last block, every codec, under three allocator fills ('repeating the run later or in another process'); replay `c07-heapfill <byte>`."
+
+
 def main():
     checks = []
     for p in PROPS:
